@@ -50,6 +50,8 @@ PROP = [  # (substring of the subject, property, what failed)
     ("stored entries that an accessor had made stale", "C06", "a getter that memoises on the receiver or turns its property into a data property: cached reads kept calling the getter / called the stored function / a cached strict set panicked"),
     ("linking a source-text module left its frame", "C07", "every linked source-text module left 2 + register_count values on the VM stack"),
     ("engine error raised while an exception was pending", "C07", "`try { throw 1 } catch (e) { throw 2 } finally { for(;;){} }` under a loop limit left pending_exception set; a later generator.return() threw the stale 2"),
+    ("continue to an outer label of a label set", "C08", "`a: b: do { if (++n>300) break; continue a; } while(true)` with loop limit 3 ran 301 bodies: the jump skipped the condition and IncrementLoopIteration (also a C01 deviation: do-while condition skipped, for initializer re-run)"),
+    ("iterator-consuming builtins were not subject to the loop-iteration limit", "C08", "`[...it]`, `Array.from(it)`, `new Set(it)`, `var [...r]=it`, `Promise.all(it)` over an endless user iterator were never stopped by the loop-iteration limit"),
     ("AST printer", "C19", None),
     ("Map/Set clear() under a live iterator", "C20", "`m.clear(); m.set(4,4); it.next()` on a running iterator reported done (spec/V8: 4) — deterministic deviation found by the C20 model refinement"),
     ("for_each_native looped forever", "C20", "JsMap/JsSet::for_each_native hung on a Map that had a deletion while an iterator was alive"),
